@@ -43,6 +43,7 @@ type Options struct {
 	Overflow   bool            // math-int mode: obligations that int arithmetic stays within 64 bits
 	Bounded    string
 	Reveal     bool // opaque spec functions are expanded (used when proving the contracts that define them)
+	Paths      bool // path mode: fork at every symbolic branch, never merge (bounded lemmas)
 	ModelElems bool // name the leading elements of slice parameters (counterexample replay)
 	InlineAll  bool // falsifier mode: ignore contracts of callees with bodies, inline them instead
 }
@@ -72,6 +73,8 @@ type Exec struct {
 	frameStack []*loopFrame
 	curPos    token.Pos
 	axiomsDone map[string]bool
+	pathInline bool
+	pathSteps  int
 }
 
 // Notes accumulate everything assumed or abstracted during a run.
